@@ -305,3 +305,31 @@ def run(ctx):
                 )
     if nclone < 2:
         raise AnalysisError(f"only {nclone} Task clone sites found", "Task")
+    # containers the constructor grows in place (`self._x.add(...)`) must not be shared between a task and its clone
+    grown = {}
+    for n in ast.walk(tm.cls("Task")):
+        if isinstance(n, ast.Call) and isinstance(n.func, ast.Attribute) and n.func.attr in ("add", "update", "append", "extend") and isinstance(n.func.value, ast.Attribute) and src(n.func.value.value) == "self":
+            fld = n.func.value.attr
+            # which constructor parameter initialises that field?
+            for a in ast.walk(init):
+                tg = a.target if isinstance(a, ast.AnnAssign) else (a.targets[0] if isinstance(a, ast.Assign) else None)
+                if tg is not None and src(tg) == f"self.{fld}" and a.value is not None:
+                    for x in ast.walk(a.value):
+                        if isinstance(x, ast.Name) and x.id in ctor:
+                            grown[x.id] = fld
+    for q, fn in tm.funcs.items():
+        if not q.startswith("Task.") or q.count(".") != 1:
+            continue
+        for c in calls_in(fn):
+            if src(c.func) in ("self.__class__", "type(self)"):
+                for kw in c.keywords:
+                    if kw.arg in grown:
+                        shared = src(kw.value) == f"self.{grown[kw.arg]}"
+                        r5.check(
+                            not shared,
+                            f"{tm.rel}:{q}:clone-shares-{kw.arg}",
+                            f"{q} passes its own `self.{grown[kw.arg]}` object to the clone, and Task.__init__ grows that container in place: building the clone changes the original task "
+                            "(and every expression already created from it, whose cached hash then no longer matches its fields)",
+                            tm.rel,
+                            c.lineno,
+                        )
